@@ -206,7 +206,8 @@ endgroup()
 
 fn(CC, 'to_dense', kind='free', status='P', props=['C07', 'C06', 'C01'],
    ensures=[('C07.to_dense-len', 'r.0@.len() == sparse@.len()'),
-            ('C07.to_dense', 'dense_ok(sparse@, r.0@, r.1 as int, sparse@.len() as int)')],
+            ('C07.to_dense', 'dense_ok(sparse@, r.0@, r.1 as int, sparse@.len() as int)'),
+            ('C07.to_dense-count', 'r.1 <= sparse@.len()')],
    loops={1: {'iter': 'it', 'invariant': [
        'it.seq().len() == sparse@.len()',
        'forall|j: int| 0 <= j < sparse@.len() ==> *it.seq()[j] == sparse@[j]',
@@ -237,7 +238,7 @@ fn(CC, 'to_dense', kind='free', status='P', props=['C07', 'C06', 'C01'],
 fn(CC, 'connected_components', kind='free', status='P', props=['C07', 'C06', 'C01', 'C20'], rules={'t9': True},
    requires=['sources@.len() == targets@.len()',
              'forall|j: int| 0 <= j < sources@.len() ==> sources@[j] < n && targets@[j] < n'],
-   ensures=[('C07.cc-coeq', 'is_coeq(r.0@, r.1 as int, sources@, targets@, n as int)')],
+   ensures=[('C07.cc-coeq', 'is_coeq(r.0@, r.1 as int, sources@, targets@, n as int)'), ('C07.cc-count', 'r.1 <= n')],
    loops={1: {'iter': 'it', 'invariant': [
        'sources@.len() == targets@.len()',
        'forall|j: int| 0 <= j < sources@.len() ==> sources@[j] < n && targets@[j] < n',
